@@ -149,14 +149,20 @@ fn cli(binary: &str, cases_path: &str, out_path: &str) {
         let mut child = std::process::Command::new("timeout").arg("20").arg(binary).arg(&text)
             .stdout(std::process::Stdio::piped()).spawn().expect("run pushr");
         let mut stdout = String::new();
+        #[allow(unused_assignments)]
+        let mut full = false;
         {
             use std::io::Read;
             let mut limited = child.stdout.take().unwrap().take(8 * 1024 * 1024);
             let mut buf = Vec::new();
             let _ = limited.read_to_end(&mut buf);
+            full = buf.len() >= 8 * 1024 * 1024;
             stdout.push_str(&String::from_utf8_lossy(&buf));
         }
-        let _ = child.kill();
+        if full {
+            // more output than is read: the rest is not needed (a finished process is never killed: its exit code counts)
+            let _ = child.kill();
+        }
         let status = child.wait().expect("wait pushr");
         // the front end prints EXEC / CODE / INT before every step
         let mut cli_steps: Vec<Value> = vec![];
